@@ -109,6 +109,13 @@ theorem wf_sizeKws (D : Defs) (ctx : List (PyVal × PyVal)) (sz : SizeOpts) :
   · cases sz.max <;> simp [Option.map, optKw, wfKws, kw, wfNode, kwOf, kwOfStr, wfLeaf, isNatJ_natJ]
   · cases sz.min <;> simp [Option.map, optKw, wfKws, kw, wfNode, kwOf, kwOfStr, wfLeaf, isNatJ_natJ]
 
+theorem wf_sizeKws_obj (D : Defs) (ctx : List (PyVal × PyVal)) (sz : SizeOpts) :
+    wfKws D ctx (optKw "maxProperties" (sz.max.map natJ)) = true
+    ∧ wfKws D ctx (optKw "minProperties" (sz.min.map natJ)) = true := by
+  constructor
+  · cases sz.max <;> simp [Option.map, optKw, wfKws, kw, wfNode, kwOf, kwOfStr, wfLeaf, isNatJ_natJ]
+  · cases sz.min <;> simp [Option.map, optKw, wfKws, kw, wfNode, kwOf, kwOfStr, wfLeaf, isNatJ_natJ]
+
 theorem wf_uniqKw (D : Defs) (ctx : List (PyVal × PyVal)) (u : Bool) :
     wfKws D ctx (optKw "uniqueItems" (if u then some (.bool true) else none)) = true := by
   cases u <;> simp [optKw, wfKws, kw, wfNode, kwOf, kwOfStr, wfLeaf, isBoolJ]
@@ -165,7 +172,7 @@ theorem wf_mapKws (D : Defs) (key : Option FieldDecl) (vs : Option PyVal) (sz : 
   suffices hh : ∀ ctx, wfKws D ctx (mapKws key vs sz) = true from hh _
   intro ctx
   simp only [mapKws, wfKws_append, and_true_iff']
-  have h2 := wf_sizeKws D ctx sz
+  have h2 := wf_sizeKws_obj D ctx sz
   refine ⟨⟨⟨wf_typeKw D ctx "object" (Or.inr (Or.inl rfl)), ?_⟩, h2.1⟩, h2.2⟩
   cases key with
   | none => rfl
